@@ -40,18 +40,46 @@ def env():
 
 
 # --------------------------------------------------------------------------- result cache
+# Two stores with the same content-addressed layout: .cache/results (local, untracked) and results_cache/ (committed:
+# the entries the registered checks used on the unchanged tree, so that a fresh checkout does not have to spend 25 CPU-hours'
+# worth of solver time before the first verdict).  A key is the sha256 of everything the verdict depends on (extracted real
+# text, framework sources, harness declaration, tool version, flags): a hit is the verdict of the identical verification problem.
+COMMITTED = os.path.join(VERIF, "results_cache")
+_used = set()
+
+
 def cache_get(key):
-    p = os.path.join(CACHE, "results", key[:2], key + ".json")
     if os.environ.get("AXV_NO_CACHE"):
         return None
-    try:
-        with open(p) as f:
-            return json.load(f)
-    except Exception:
-        return None
+    for root in (os.path.join(CACHE, "results"), COMMITTED):
+        p = os.path.join(root, key[:2], key + ".json")
+        try:
+            with open(p) as f:
+                v = json.load(f)
+            _used.add(key)
+            return v
+        except Exception:
+            continue
+    return None
+
+
+def export_used():
+    """copy the entries this process used into the committed store (AXV_EXPORT_CACHE=1)"""
+    n = 0
+    for key in _used:
+        src = os.path.join(CACHE, "results", key[:2], key + ".json")
+        dst = os.path.join(COMMITTED, key[:2], key + ".json")
+        if os.path.exists(src) and not os.path.exists(dst):
+            os.makedirs(os.path.dirname(dst), exist_ok=True)
+            v = json.load(open(src))
+            v.pop("raw_tail", None)
+            json.dump(v, open(dst, "w"), separators=(",", ":"))
+            n += 1
+    return n
 
 
 def cache_put(key, val):
+    _used.add(key)
     p = os.path.join(CACHE, "results", key[:2], key + ".json")
     os.makedirs(os.path.dirname(p), exist_ok=True)
     tmp = p + ".%d.tmp" % os.getpid()
@@ -154,7 +182,10 @@ def run_shard(crate_dir, target_tmpl, jobs, timeout_s, log_path):
     tgt = os.path.join(crate_dir, "target")
     if target_tmpl and not os.path.exists(tgt):
         subprocess.run(["cp", "-al", target_tmpl, tgt], check=True)
-    cmd = ["cargo", "kani", "-j", str(jobs)] + KANI_FLAGS + ["--harness-timeout", "%ds" % timeout_s]
+    # address-space limit per process (CBMC): a harness that needs more than this is reported as undecided instead of
+    # taking the machine down (62 GB, no swap)
+    mem_kb = int(os.environ.get("AXV_CBMC_MEM_KB", "20000000"))
+    cmd = ["bash", "-c", "ulimit -v %d; exec cargo kani -j %d %s --harness-timeout %ds" % (mem_kb, jobs, " ".join(KANI_FLAGS), timeout_s)]
     t0 = time.time()
     with open(log_path, "w") as lf:
         p = subprocess.Popen(cmd, cwd=crate_dir, env=env(), stdout=lf, stderr=subprocess.STDOUT, start_new_session=True)
